@@ -385,9 +385,8 @@ def r4(repo, res):
                 continue
             rd = Obj(reference_id=0, reference_name="chr22", reference_start=rs, reference_end=re_)
             k, v = Evaluator({"region": Region("22", 4, 8), "read": rd, "prefix": "chr"}).run(fn_body(g))
-            overlap = rs < 8 and re_ > 4
-            touching = re_ == 4 or rs == 8
-            if k != "return" or (not touching and bool(v) != overlap):
+            overlap = rs < 8 and re_ > 4   # half-open intervals: a read that ends where the region starts has no base in it
+            if k != "return" or bool(v) != overlap:
                 bad = f"read [{rs},{re_}) vs region [4,8): {v}, expected {overlap}"
                 break
         for rd, label in ((Obj(reference_id=-1, reference_name=None, reference_start=5, reference_end=6), "unmapped"),
@@ -401,7 +400,7 @@ def r4(repo, res):
     except (Unfoldable, Raised) as e:
         res.err("C06.R4", f"_in_region outside folding language: {e}")
         return
-    res.ob("C06.R4", g, g, bad is None, expected="true for reads overlapping the region, false for separated / unmapped / other-chromosome reads (touching = don't care)",
+    res.ob("C06.R4", g, g, bad is None, expected="true exactly for reads with at least one base inside the region [start, end); false for adjacent, separated, unmapped and other-chromosome reads",
            found="ok on the interval grid" if bad is None else bad, key="in-region")
 
 
@@ -521,6 +520,9 @@ def run(repo, res):
 
 
 MUTANTS = [
+    dict(name="R4 original defect (closed-interval overlap test: touching reads accepted)", module="sam", expect="C06.R4",
+         old="    return read.reference_start < region.end and region.start < read.reference_end",
+         new="    a = (read.reference_start, read.reference_end)\n    b = (region.start, region.end)\n    return a[0] <= b[0] <= a[1] or b[0] <= a[0] <= b[1]"),
     dict(name="R1 deletion does not advance the cursor", module="sam", expect="C06.R1",
          old="                    self._indel_sites[self._indel_sites_eqs[mut]][1] += 1\n                start += size\n            elif op == 1:",
          new="                    self._indel_sites[self._indel_sites_eqs[mut]][1] += 1\n            elif op == 1:"),
@@ -548,7 +550,7 @@ MUTANTS = [
     dict(name="R4 region test dropped", module="sam", expect="C06.R4",
          old="                if not _in_region(self.gene.get_wide_region(), read, self._prefix):\n                    continue\n", new=""),
     dict(name="R4 region predicate one-sided", module="sam", expect="C06.R4",
-         old="    return a[0] <= b[0] <= a[1] or b[0] <= a[0] <= b[1]", new="    return a[0] <= b[0] <= a[1]"),
+         old="    return read.reference_start < region.end and region.start < read.reference_end", new="    return read.reference_start < region.end"),
     dict(name="R4 qualities handed over in the wrong slot", module="sam", expect=["C06.R4"],
          old="                    read.mapping_quality,\n                    read.query_qualities,\n                )\n                if self.reads is not None:",
          new="                    read.query_qualities,\n                    read.mapping_quality,\n                )\n                if self.reads is not None:"),
